@@ -84,11 +84,12 @@ pub(crate) fn valid_ident() -> &'static Regex {
     VALID_IDENT.get_or_init(|| {
         // One of:
         // - `*`
-        // - An ident starting with `a-z_\$` and containing other characters `a-z0-9_\$`
+        // - An ident starting with `a-z_` and containing other characters `a-z0-9_`
+        //   (not `$`: the SQL formatter and several engines read `$x` as a parameter)
         //
         // We could replace this with pomsky (regex<>pomsky : sql<>prql)
-        // ^ ('*' | [ascii_lower '_$'] [ascii_lower ascii_digit '_$']* ) $
-        Regex::new(r"^((\*)|(^[a-z_\$][a-z0-9_\$]*))$").unwrap()
+        // ^ ('*' | [ascii_lower '_'] [ascii_lower ascii_digit '_']* ) $
+        Regex::new(r"^((\*)|(^[a-z_][a-z0-9_]*))$").unwrap()
     })
 }
 
